@@ -7,8 +7,10 @@ required members present, nothing after the root).
 namespace S3V.Xml
 open S3V
 
+/-- character data: a text piece or a CDATA section -/
 def Ev.isText : Ev → Bool
   | .text _ => true
+  | .cdata _ => true
   | _ => false
 
 /-! ### cursor facts -/
@@ -18,6 +20,11 @@ theorem skipText_split : ∀ (evs : List Ev), ∃ pre, evs = pre ++ skipText evs
   | .text raw :: r => by
     obtain ⟨pre, h1, h2⟩ := skipText_split r
     refine ⟨.text raw :: pre, ?_, by simp [Ev.isText, h2]⟩
+    simp only [skipText, List.cons_append]
+    exact congrArg _ h1
+  | .cdata c :: r => by
+    obtain ⟨pre, h1, h2⟩ := skipText_split r
+    refine ⟨.cdata c :: pre, ?_, by simp [Ev.isText, h2]⟩
     simp only [skipText, List.cons_append]
     exact congrArg _ h1
   | .start n a :: r => ⟨[], by simp [skipText]⟩
@@ -55,7 +62,7 @@ theorem expectEof_ok {evs : List Ev} (h : expectEof evs = .ok ()) : evs.all Ev.i
   obtain ⟨pre, h1, h2⟩ := skipText_split evs
   unfold expectEof at h
   split at h
-  case h_5 heq => rw [heq, List.append_nil] at h1; rw [h1]; exact h2
+  case h_6 heq => rw [heq, List.append_nil] at h1; rw [h1]; exact h2
   all_goals cases h
 
 /-! ### clause: expected root, nothing after the root -/
